@@ -19,7 +19,9 @@ func GetAlternativesSearchOrder(
 	if len(params.GetCurrentChoice()) > 0 {
 		allAlternatives := dm.AllAlternatives()
 		choice := model.FetchAlternative(&allAlternatives, params.GetCurrentChoice())
-		leftAlternatives := model.RemoveAlternative(dm.ConsideredAlternatives, choice)
+		// RemoveAlternative deletes in place: work on a copy, the considered alternatives are shared
+		// with the preceding bias's report and with the state the caller still uses
+		leftAlternatives := model.RemoveAlternative(*model.CopyAlternatives(&dm.ConsideredAlternatives), choice)
 		otherAlternatives := OrderAlternatives(params.IsRandomAlternativesOrdering(), &leftAlternatives, generator)
 		return choice, *otherAlternatives
 	} else {
